@@ -318,7 +318,15 @@ def r17(rr, repo):
     rr.floor('removals of ipc socket files in ZMQSender.destroy', len(unlinks), 1, za.mod, za.S_destroy)
     for c in unlinks:
         g = q.effective_guards(c, za.S_destroy)
-        ident = [t for t, p in g if p and ('st_ino' in t or 'samefile' in t or 'st_dev' in t)]
+        def same_file(t, p):        # `<inode now> == <inode noted>` in the positive sense (or `!=` in the negative one), os.path.samefile(..) positively
+            try:
+                e = ast.parse(t, mode='eval').body
+            except SyntaxError:
+                return False
+            if isinstance(e, ast.Compare) and len(e.ops) == 1 and ('st_ino' in t or 'st_dev' in t):
+                return (isinstance(e.ops[0], ast.Eq) and p) or (isinstance(e.ops[0], ast.NotEq) and not p)
+            return 'samefile' in t and p
+        ident = [t for t, p in g if same_file(t, p)]
         rr.ob('a socket file is removed only after it was identified as the one this instance bound (inode noted at bind)', bool(ident), za.mod, c, witness=(ident[0] if ident else str(g))[:140], key='ipc-unlink-own-file-only')
     if unlinks:
         noted = [n for n in ast.walk(za.S_init) if isinstance(n, ast.Assign) and 'st_ino' in U(n.value)]
